@@ -768,6 +768,14 @@ impl<const LEVELS: usize> OrderBook<LEVELS> {
     ) {
         let mut order_entry = self.orders[order_id];
 
+        // Prices must stay on the tick grid (as for newly
+        // created orders), otherwise the request is ignored
+        if let Some(p) = new_price {
+            if p % self.tick_size != 0 {
+                return;
+            }
+        }
+
         if order_entry.order.status == Status::Active {
             match (new_price, new_vol) {
                 (None, None) => (),
